@@ -107,9 +107,17 @@ func (c15) Gen(r *Rand, idx int, tier string) interface{} {
 				p.Ops = append(p.Ops, qOp{Op: "add", N: r.Intn(3*body + 1), EOM: r.Pct(30)})
 			case c < 40:
 				p.Ops = append(p.Ops, qOp{Op: "bytes", N: r.Intn(2*body + 3)})
-			case c < 45:
+			case c < 43:
 				// read exactly up to the end of what is queued (the cursor then sits behind the last packet)
 				p.Ops = append(p.Ops, qOp{Op: "toend"})
+			case c < 44 && r.Pct(60):
+				// with nothing unread: write exactly one or two packet bodies (the cursor moves behind them, to the
+				// very end of a full packet), so that written and enqueued data follow each other in one queue
+				p.Ops = append(p.Ops, qOp{Op: "wrfull", N: 1 + r.Intn(2)})
+			case c < 45:
+				// read exactly up to the end of the packet at the cursor (the cursor then sits on a packet boundary
+				// with unread packets behind it)
+				p.Ops = append(p.Ops, qOp{Op: "toedge"})
 			case c < 50:
 				p.Ops = append(p.Ops, qOp{Op: "byte"})
 			case c < 55:
@@ -246,6 +254,13 @@ func (c15) Run(plan interface{}, schedSeed uint64, replay []simrt.Choice, lenien
 			}
 			var sv *saved
 			var bounds []int // absolute offsets of packet ends
+			type keptBytes struct {
+				got, want []byte
+				op        int
+			}
+			var kept []keptBytes
+			opi := -1
+			wrote := false
 			expectRead := func(op string, n int, got []byte, err error) {
 				if pos+n <= len(all) {
 					if err != nil {
@@ -283,6 +298,7 @@ func (c15) Run(plan interface{}, schedSeed uint64, replay []simrt.Choice, lenien
 				}
 			}
 			for _, o := range p.Ops {
+				opi++
 				if len(viol) > 0 {
 					return
 				}
@@ -304,10 +320,42 @@ func (c15) Run(plan interface{}, schedSeed uint64, replay []simrt.Choice, lenien
 						fail("wrong-length", "Bytes returned wrong length", "Bytes(%d) returned %d bytes", o.N, len(got))
 					}
 					expectRead("Bytes", o.N, got, err)
+					if err == nil && len(got) > 0 {
+						if o.Alt == 1 {
+							// the caller owns what it was given: it may overwrite it and append to it
+							for i := range got {
+								got[i] = 0xEE
+							}
+							_ = append(got, 0xEE, 0xEE, 0xEE, 0xEE)
+						} else {
+							kept = append(kept, keptBytes{got, append([]byte{}, got...), opi})
+						}
+					}
 				case "toend":
 					if n := len(all) - pos; n > 0 {
 						got, err := q.Bytes(n)
 						expectRead("Bytes(to the end)", n, got, err)
+					}
+				case "wrfull":
+					if pos == len(all) {
+						b := gen(o.N * (p.Size - 8))
+						if err := q.WriteBytes(b); err != nil {
+							fail("write-error", "write failed", "WriteBytes(%d): %v", len(b), err)
+						}
+						for k := 0; k < o.N; k++ {
+							bounds = append(bounds, len(all)+(k+1)*(p.Size-8))
+						}
+						all = append(all, b...)
+						pos = len(all)
+						wrote = true
+					}
+				case "toedge":
+					for _, b := range bounds {
+						if b > pos {
+							got, err := q.Bytes(b - pos)
+							expectRead("Bytes(to the end of the packet)", b-pos, got, err)
+							break
+						}
 					}
 				case "byte":
 					beforeRead(1)
@@ -406,6 +454,13 @@ func (c15) Run(plan interface{}, schedSeed uint64, replay []simrt.Choice, lenien
 					} else if q.IsEOM() {
 						fail("wrong-state", "IsEOM with unread bytes", "after op %s: %d bytes are unread but IsEOM() is true", o.Op, len(all)-pos)
 					}
+				}
+			}
+			_ = wrote
+			// what a read returned belongs to the caller: nothing the queue does later may change it
+			for _, k := range kept {
+				if len(viol) == 0 && string(k.got) != string(k.want) {
+					fail("aliased", "bytes returned by a read changed afterwards", "the %d bytes returned by op #%d (Bytes) were %x and are %x after the later operations", len(k.want), k.op, k.want, k.got)
 				}
 			}
 			// finally every unread byte must still be readable
